@@ -167,6 +167,11 @@ class Run:
         cwd = cwd or self.specdir
         md = tempfile.mkdtemp(prefix="md-", dir=self.scratch)
         cmd = ["java", "-Xss768m", "-XX:+UseParallelGC"]
+        if heap is None and workers == 1:
+            # trace validation: a heap sized from 25 % of a large machine's RAM is paged in by the collector and
+            # was measured up to 10x slower; a small fixed heap and few GC threads are enough for one worker
+            heap = os.environ.get("VERIF_TRACE_HEAP", "6g")
+            cmd.append("-XX:ParallelGCThreads=4")
         if heap:
             cmd.append("-Xmx" + heap)
         if dfs:
